@@ -22,9 +22,9 @@ var tLeaf = map[string]int{"h1": 1, "h2": 1, "broadcast": 1, "markZeroBytes": 1,
 // package-level constants the lookup path may mention
 var tConst = map[string]bool{"metaMask": true, "entriesPerMapOfBucket": true, "defaultMeta": true, "defaultMetaMasked": true, "emptyMetaSlot": true, "entriesPerMapBucket": true}
 
-var tBin = map[token.Token]string{token.AND: ".and", token.XOR: ".xor", token.SUB: ".sub", token.NEQ: ".ne", token.EQL: ".eq", token.LAND: ".land", token.LSS: ".lt"}
+var tBin = map[token.Token]string{token.AND: ".and", token.XOR: ".xor", token.SUB: ".sub", token.NEQ: ".ne", token.EQL: ".eq", token.LAND: ".land", token.LSS: ".lt", token.ADD: ".add"}
 
-var tOpAssign = map[token.Token]string{token.AND_ASSIGN: ".and", token.XOR_ASSIGN: ".xor", token.SUB_ASSIGN: ".sub"}
+var tOpAssign = map[token.Token]string{token.AND_ASSIGN: ".and", token.XOR_ASSIGN: ".xor", token.SUB_ASSIGN: ".sub", token.ADD_ASSIGN: ".add"}
 
 type ttr struct {
 	recv   string
@@ -47,7 +47,7 @@ func (t *ttr) isLocal(x string) bool {
 func convName(e ast.Expr) (string, bool) {
 	switch x := e.(type) {
 	case *ast.Ident:
-		if x.Name == "uint64" || x.Name == "int" || x.Name == "uintptr" {
+		if x.Name == "uint64" || x.Name == "int" || x.Name == "uintptr" || x.Name == "int64" {
 			return x.Name, true
 		}
 	case *ast.ParenExpr:
@@ -123,6 +123,8 @@ func (t *ttr) expr(e ast.Expr) string {
 			return "(.len " + t.expr(x.Args[0]) + ")"
 		case fn == "atomic.LoadPointer" && len(x.Args) == 1:
 			return "(.atomicLoad \"Pointer\" " + t.expr(x.Args[0]) + ")"
+		case fn == "atomic.LoadInt64" && len(x.Args) == 1:
+			return "(.atomicLoad \"Int64\" " + t.expr(x.Args[0]) + ")"
 		case fn == "atomic.LoadUint64" && len(x.Args) == 1:
 			return "(.atomicLoad \"Uint64\" " + t.expr(x.Args[0]) + ")"
 		case (fn == t.recv+".hasher" || fn == "hashString") && !t.isLocal(fn) && len(x.Args) == 2:
@@ -244,6 +246,17 @@ func (t *ttr) stmt(s ast.Stmt) string {
 		}
 		c := t.expr(x.Cond)
 		return fmt.Sprintf("(.while %s %s)", c, t.block(x.Body))
+	case *ast.RangeStmt:
+		// `for i := range xs { … }`: the index only
+		id, ok := x.Key.(*ast.Ident)
+		if !ok || x.Value != nil || x.Tok != token.DEFINE {
+			die("%s: range statement outside the subset (for i := range xs)", pos(s))
+		}
+		xs := t.expr(x.X)
+		t.push()
+		defer t.pop()
+		t.declare(id.Name)
+		return fmt.Sprintf("(.rangeIdx %s %s %s)", str(id.Name), xs, t.block(x.Body))
 	case *ast.ReturnStmt:
 		if len(x.Results) == 0 {
 			return ".retBare"
@@ -260,7 +273,7 @@ func (t *ttr) stmt(s ast.Stmt) string {
 	return ""
 }
 
-var tTyNames = map[string]string{"V": ".userV", "bool": ".bool", "K": ".key", "string": ".key", "interface{}": ".userV"}
+var tTyNames = map[string]string{"V": ".userV", "bool": ".bool", "K": ".key", "string": ".key", "interface{}": ".userV", "int64": ".int"}
 
 func (t *ttr) funcDecl(fd *ast.FuncDecl) string {
 	t.push()
@@ -297,7 +310,8 @@ func tableMain(repo, out string) {
 	for _, spec := range []struct {
 		file, recvType string
 		methods        []string
-	}{{"internal/xsync/mapof.go", "MapOf", []string{"Load"}}, {"internal/xsync/map.go", "Map", []string{"Load"}}} {
+	}{{"internal/xsync/mapof.go", "MapOf", []string{"Load"}}, {"internal/xsync/map.go", "Map", []string{"Load"}},
+		{"internal/xsync/mapof.go", "mapOfTable", []string{"sumSize"}}, {"internal/xsync/map.go", "mapTable", []string{"sumSize"}}} {
 		f, err := parser.ParseFile(fset, filepath.Join(repo, spec.file), nil, 0)
 		if err != nil {
 			die("%v", err)
